@@ -444,7 +444,7 @@ def _own(pid, sig):
 
 
 def cdrv_run(ctx, name, variant, san, what, scale=1.0, shards=None, gen_extra=None, wrapper=None, env_extra=None,
-             exe=None, timeout=3600, trace=False):
+             exe=None, timeout=3600, trace=False, exe_args=None):
     """Run `mon gen-cscript ... | cdrv` in `shards` parallel pairs. Folds violations whose
     signature belongs to ctx.pid; signatures of other properties are only noted."""
     import cbuild
@@ -464,7 +464,8 @@ def cdrv_run(ctx, name, variant, san, what, scale=1.0, shards=None, gen_extra=No
             env["CDRV_TRACE"] = "1"
         t0 = time.time()
         g = subprocess.Popen(gen_cmd, stdout=subprocess.PIPE, stderr=subprocess.PIPE, env=env_base())
-        d = subprocess.Popen(list(wrapper or []) + [exe], stdin=g.stdout, stdout=subprocess.PIPE, stderr=subprocess.PIPE, env=env)
+        xa = exe_args(i) if callable(exe_args) else list(exe_args or [])
+        d = subprocess.Popen(list(wrapper or []) + [exe] + xa, stdin=g.stdout, stdout=subprocess.PIPE, stderr=subprocess.PIPE, env=env)
         g.stdout.close()
         try:
             out, err = d.communicate(timeout=timeout)
@@ -511,6 +512,17 @@ def cdrv_run(ctx, name, variant, san, what, scale=1.0, shards=None, gen_extra=No
             elif line.startswith("KC ") or line.startswith("AC "):
                 _, k, v = line.split()
                 kc[k] = kc.get(k, 0) + int(v)
+            elif line.startswith("SHAREDSTATE "):
+                for part in line.split()[1:]:
+                    k, v = part.split("=")
+                    if k in ("writable_bytes", "changed_bytes", "outside_detection_cache"):
+                        kc["sharedstate_" + k] = kc.get("sharedstate_" + k, 0) + int(v)
+                    else:
+                        kc.setdefault("sharedstate_" + k, v)
+            elif line.startswith("SEAM "):
+                for part in line.split()[1:]:
+                    k, v = part.split("=")
+                    kc["seam_" + k] = kc.get("seam_" + k, 0) + int(v)
             elif line.startswith("TRAMP "):
                 for part in line.split()[1:]:
                     k, v = part.split("=")
@@ -594,7 +606,9 @@ def miri_run(ctx, name, args, shards=16, flavour="pure", miriflags="", timeout=1
     env["RUSTFLAGS"] = "--cfg %s -Ctarget-feature=+sse4.1,+avx2" % GUARD
     env["MIRIFLAGS"] = ("-Zmiri-disable-isolation " + miriflags).strip()
     base = ["cargo", "+nightly", "miri", "run", "--offline", "-q", "-p", "mon", "--target-dir", tdir] + MIRI_FEATURES[flavour] + ["--"]
-    rc, out, to = run(base + ["selftest"], cwd=HARNESS, env=env, timeout=1800)
+    env0 = dict(env)
+    env0["MIRIFLAGS"] = env["MIRIFLAGS"].replace("{shard}", "0")
+    rc, out, to = run(base + ["selftest"], cwd=HARNESS, env=env0, timeout=1800)
     if rc != 0:
         ctx.note_inconclusive("%s: Miri unavailable or build failed: %s" % (name, out[-400:]))
         return
@@ -605,7 +619,9 @@ def miri_run(ctx, name, args, shards=16, flavour="pure", miriflags="", timeout=1
         os.close(fd)
         cmd = base + list(args) + ["--seed", str(ctx.seed), "--tier", ctx.tier, "--threads", "1", "--shard", str(i), "--shards", str(shards), "--out", outp]
         t0 = time.time()
-        rc, out, to = run(cmd, cwd=HARNESS, env=env, timeout=timeout)
+        env_i = dict(env)
+        env_i["MIRIFLAGS"] = env["MIRIFLAGS"].replace("{shard}", str(i + 1000 * ctx.seed))
+        rc, out, to = run(cmd, cwd=HARNESS, env=env_i, timeout=timeout)
         rep = None
         if rc == 0:
             try:
@@ -661,3 +677,62 @@ def miri_run(ctx, name, args, shards=16, flavour="pure", miriflags="", timeout=1
     obs["miri_shards"] = shards
     obs["miri_reports"] = reports
     obs["miri_flags"] = env["MIRIFLAGS"]
+
+
+# --------------------------------------------------------------------------------------------
+# ThreadSanitizer build of the Rust monitors (-Zbuild-std, all accesses instrumented)
+# --------------------------------------------------------------------------------------------
+def tsan_mon(ctx, name, args, timeout=2400, owner=None, env_extra=None):
+    owner = owner or ctx.pid
+    try:
+        exe = cargo_build("tsan", "debug", extra_rustflags="-Zsanitizer=thread", toolchain="nightly",
+                          extra_args=["-Zbuild-std", "--target", "x86_64-unknown-linux-gnu"], target_subdir="tsan",
+                          features=["--no-default-features", "--features", "std,pure,miri_rayon"])
+    except HarnessError as e:
+        ctx.note_inconclusive("%s: TSan build unavailable: %s" % (name, str(e)[-300:]))
+        return None
+    fd, outp = tempfile.mkstemp(prefix="verif-tsan-", suffix=".json")
+    os.close(fd)
+    env = env_base()
+    env["TSAN_OPTIONS"] = "halt_on_error=0 exitcode=66 second_deadlock_stack=1"
+    if env_extra:
+        env.update(env_extra)
+    t0 = time.time()
+    rc, out, to = run([exe] + list(args) + ["--seed", str(ctx.seed), "--tier", ctx.tier, "--out", outp], env=env, timeout=timeout)
+    step = {"step": name, "tool": "tsan", "wall_s": round(time.time() - t0, 1), "rc": rc}
+    ctx.steps.append(step)
+    try:
+        if to:
+            ctx.note_inconclusive("%s: watchdog fired" % name)
+            return None
+        reports = out.count("WARNING: ThreadSanitizer")
+        if reports:
+            # dedupe by the outermost in-repo frames
+            blocks = out.split("WARNING: ThreadSanitizer")[1:]
+            seen = set()
+            for b in blocks:
+                frames = re.findall(r"#\d+ (\S+) /repo/src/([\w./]+):(\d+)", b)
+                key = tuple(sorted(set(f[0][:60] for f in frames[:6])))
+                if key in seen:
+                    continue
+                seen.add(key)
+                if frames:
+                    sig = "%s/tsan/rust/%s" % (owner, frames[0][0][:70])
+                    ctx.add_violation(sig, "[%s] ThreadSanitizer: %s" % (name, b[:1500]),
+                                      {"kind": "cmd", "cmd": ["./check", ctx.pid, "--tier", ctx.tier], "cwd": VERIF})
+                else:
+                    ctx.note_inconclusive("%s: TSan report without a frame under /repo/src: %s" % (name, b[:300].replace("\n", " | ")))
+            step["verdict"] = "violated" if ctx.violations else "inconclusive"
+        if rc not in (0, 66):
+            raise HarnessError("%s: TSan run exited %s: %s" % (name, rc, out[-1200:]))
+        rep = json.load(open(outp))
+        ctx.fold(name, "tsan", "debug", rep)
+        ctx.observations.setdefault(name, {})["tsan_reports"] = reports
+        step["evaluations"] = rep["evaluations"]
+        step.setdefault("verdict", "held")
+        return rep
+    finally:
+        try:
+            os.unlink(outp)
+        except OSError:
+            pass
